@@ -81,6 +81,12 @@ def judge_hours(case, hours, want):
     lo, up = e.culmination_alts()
     if dh is None:
         return [("dhuhr-invalid", "Dhuhr is not reported")]
+    # clock times are reported modulo 24 h (the kernels wrap some of them and not others when the clock is far from the meridian):
+    # every event is judged at its representative within +-12 h of Dhuhr
+    hraw = dict(h)
+    for n in ORDER:
+        if n != "Dhuhr" and h[n] is not None and math.isfinite(h[n]):
+            h[n] = dh + ((h[n] - dh + 12.0) % 24.0) - 12.0
     if "dhuhr" in want:
         # the clock time is what is reported: evaluate the hour angle at that clock time ON THE REQUESTED DATE
         ha = e.hour_angle(dh % 24.0)
@@ -118,7 +124,7 @@ def judge_hours(case, hours, want):
         for nm, sign in (("Shurooq", -1), ("Maghrib", 1)):
             t = h[nm]
             if t is not None and abs(lat) <= 60:
-                al = e.alt(t)
+                al = e.alt(hraw[nm])      # the instant the library computed it for (same civil date), not its representative near Dhuhr
                 if abs(al + 0.833) > 0.05:
                     out.append(("%s-altitude" % nm.lower(), "%s: Sun's altitude at the reported instant is %.4f, expected -0.833 +- 0.05" % (nm, al)))
                 if (t - dh) * sign < 0:
